@@ -46,7 +46,7 @@ var props = map[string]*propCfg{
 	"C20": {
 		ID: "C20", Scenario: "sessions", Race: false,
 		QuickRuns: 160000, ThorRuns: 3000000, QuickChunk: 500, ThorChunk: 2000, ChunkTimeoS: 1800,
-		Rule: "one evaluation = one simulated run: 1-6 runners (on 1-3 task goroutines; with more than one task the token scheduler interleaves them at statement level) each executing a seed-derived history of SETTHIS (fresh map, empty map, nil, or a map object handed over before) / SETVAL / CALLER-WRITES (the caller writes into its own map) / EVAL / STORE / FETCH / PROBE operations; parsed trees are kept and re-evaluated; formulas come from the model grammar (literals, names, $locals, assignment, comma, arrays, parentheses, conditionals, small-integer + - * and unary minus, same-kind ===, calls to recording / put / get / failing host stubs) and are generated against the model's current state; every result, every get, the host-call order and the caller's data are compared with the two-map reference model after every op; single host faults are enumerated at every call position on clones of the current state. Non-trivial: at least one evaluation and (several evaluations, several runners, or an aborted evaluation); distinct = distinct hash of the complete op histories.",
+		Rule: "one evaluation = one simulated run: 1-6 runners (on 1-3 task goroutines; with more than one task the token scheduler interleaves them at statement level) each executing a seed-derived history of SETTHIS (fresh map, empty map, nil, or a map object handed over before) / SETVAL / CALLER-WRITES (the caller writes into its own map) / EVAL / STORE / FETCH (over a key set of 8, in a quarter of the runs 12-68, keys) / PROBE operations; parsed trees are kept and re-evaluated; formulas come from the model grammar (literals - among them numbers that differ only in trailing zeros -, names, $locals, assignment, comma, arrays, parentheses, conditionals, small-integer + - * and unary minus, same-kind ===, calls to recording / put / get / failing host stubs) and are generated against the model's current state; every result, every get, the host-call order and the caller's data are compared with the two-map reference model after every op; single host faults are enumerated at every call position on clones of the current state. Non-trivial: at least one evaluation and (several evaluations, several runners, or an aborted evaluation); distinct = distinct hash of the complete op histories.",
 		Assumptions: []string{
 			"the reference model is written from the statement; where the statement is silent (does an evaluation that returned an error keep the locals it had assigned?) each such local may hold its old or its new value and the model resynchronises by reading it",
 			"formulas stay inside the fragment whose meaning the statements fix; null is not passed to host stubs while the C11 null-argument finding is open",
@@ -82,7 +82,7 @@ var props = map[string]*propCfg{
 	"C11": {
 		ID: "C11", Scenario: "bridge", Race: false,
 		QuickRuns: 300000, ThorRuns: 6000000, QuickChunk: 5000, ThorChunk: 10000, ChunkTimeoS: 1800,
-		Rule: "one evaluation = one simulated run: 1-6 host functions with seed-derived signatures (parameter kinds string, bool, int, int8-64, float32/64, interface{}, *decimal.Big, time.Time, slices and string-keyed maps of these, variadic tails, optional leading context; result kinds int, int32, int64, float32, float64, string, bool, interface{}, *decimal.Big) synthesised with reflect.MakeFunc, and one formula `[call, call, ...]` whose calls have argument lists of length 0..n+2 over all value kinds, with and without spread, nested in arguments, arrays and conditional branches, mixed with calls of the library's own builtins (abs, max, min, len, upper, lower, left, right, contains, find, replace, join, includes, finite, year, month, day) and, in a quarter of the runs, a host function that re-enters the runner with a derived context; in a sixth of the runs 2-3 such worlds run on tasks interleaved at statement level; evaluated fault-free and then with a returned error at every host-call position (enumerated). The recorded invocations (order, converted arguments, context identity) and the outcome are compared with a three-valued declarative model (must call / must fail without calling / unspecified). Non-trivial: at least one evaluated call or a predicted failure; distinct = distinct hash of formula text and recorded invocation logs.",
+		Rule: "one evaluation = one simulated run: 1-6 host functions with seed-derived signatures (parameter kinds string, bool, int, int8-64, float32/64, interface{}, *decimal.Big, time.Time, slices and string-keyed maps of these, variadic tails, optional leading context; result kinds int, int32, int64, float32, float64, string, bool, interface{}, *decimal.Big) synthesised with reflect.MakeFunc, and one formula `[call, call, ...]` whose calls have argument lists of length 0..n+2 over all value kinds, with and without spread, nested in arguments, arrays, conditional branches and under the typeof operator, mixed with calls of the library's own builtins (abs, max, min, len, upper, lower, left, right, contains, find, replace, join, includes, finite, year, month, day) and, in a quarter of the runs, a host function that re-enters the runner with a derived context; in a sixth of the runs 2-3 such worlds run on tasks interleaved at statement level; evaluated fault-free and then with a returned error at every host-call position (enumerated). The recorded invocations (order, converted arguments, context identity) and the outcome are compared with a three-valued declarative model (must call / must fail without calling / unspecified). Non-trivial: at least one evaluated call or a predicted failure; distinct = distinct hash of formula text and recorded invocation logs.",
 		Assumptions: []string{
 			"cells the statement does not fix (null to non-interface parameters, text of arrays/times/maps as strings, numeric-looking strings to numbers, out-of-range integers, values that came through a float32) are UNSPECIFIED: only the specified prefix of the invocation log is checked for that evaluation",
 			"conversion to string-keyed map parameters is read as element-wise, like slices",
